@@ -468,6 +468,55 @@ def sample(ctx, budget=1.0, hint=None, broken=None):
                 pass
         if len(samples) < 3:
             samples.append({'d': d})
+    # relative runs that come back to the subpath start only up to round-off, then closepath: the pen is compared with the start
+    # exactly (floats), so the closing Line exists iff the accumulated float sums differ
+    from decimal import Decimal
+    for it in range(int(ctx.n(150, 1500) * budget)):
+        digs = r.choice([1, 1, 2, 3])
+        def dnum(lo=-9, hi=9):
+            return Decimal(r.randint(lo * 10 ** digs, hi * 10 ** digs)).scaleb(-digs)
+        kind = r.choice(['m-rel', 'M-abs', 'curpos', 'bigsmall'])
+        cur0 = 0j
+        if kind == 'bigsmall':
+            parts = ['M%s %s' % (r.choice(['1e16', '4e15', '-9e15']), r.choice(['0', '1', '3']))]
+            k = r.randint(1, 3)
+            steps = [(Decimal(r.randint(1, 6)), Decimal(r.randint(-3, 3))) for _ in range(k)]
+        else:
+            if kind == 'curpos':
+                cur0 = complex(float(dnum()), float(dnum()))
+                parts = ['m %s %s' % (r.choice(['0', '.5', '-2']), r.choice(['0', '1.25']))]
+            else:
+                parts = ['%s %s %s' % ('m' if kind == 'm-rel' else 'M', dnum(), dnum())]
+            k = r.randint(1, 5)
+            steps = [(dnum(), dnum()) for _ in range(k)]
+        sx = sum(a for a, _ in steps); sy = sum(b for _, b in steps)
+        order = steps + [(-sx, -sy)]
+        for a, b in order:
+            form = r.choice(['l', 'l', 'hv', 'q', 'c', 'a'])
+            if form == 'l':
+                parts.append('l %s %s' % (a, b))
+            elif form == 'hv':
+                parts.append('h %s v %s' % (a, b))
+            elif form == 'q':
+                parts.append('q %s %s %s %s' % (dnum(), dnum(), a, b))
+            elif form == 'c':
+                parts.append('c %s %s %s %s %s %s' % (dnum(), dnum(), dnum(), dnum(), a, b))
+            else:
+                parts.append('a %s %s 0 0 1 %s %s' % (abs(dnum(1, 9)) + 20, abs(dnum(1, 9)) + 20, a, b))
+        parts.append(r.choice('zZ'))
+        if r.random() < 0.3:
+            parts.append('l 1 1')
+        d = ' '.join(parts)
+        n_eval += 1
+        nontriv.add(('rel-return', kind, digs))
+        try:
+            res, want, got = cmp(d, cur0)
+        except Exception:
+            continue
+        if res != 'ok':
+            fail('parse_path/closepath-near-start/' + res.replace(' ', '-'), 'parse_path(d) disagrees with the SVG reference interpreter on a run of relative commands that returns to the subpath start up to round-off and is then closed',
+                 {'d': d, 'current_pos': [cur0.real, cur0.imag]}, repr(got)[:300] if got else res, repr(want)[:300],
+                 'svgpathtools.parse_path(%r, current_pos=%r)' % (d, cur0))
     # arc flags written without separators (finding F5)
     for d in ['M0,0 a25,25 0 01 50,25', 'M0,0 A25 25 0 0150 25', 'M 10 10 a 20 20 0 1040 0']:
         n_eval += 1
@@ -486,7 +535,7 @@ def sample(ctx, budget=1.0, hint=None, broken=None):
     return {'evaluations': n_eval, 'distinct_nontrivial': len(nontriv), 'failures': fails, 'samples': samples,
             'rule': 'random programs over the 20 letters (1..10 commands after the moveto, implicit repetitions, relative arcs ending on the current point, zero radii; 15%: a curve, a command that leaves the pen in place - zero m/l/h, omitted arc, Z or M back to the start - then S/T), '
                     'number classes int/half/tiny/huge/mixed, spellings plain/comma/comma+spaces/multi-space/sign-as-separator/exponent/leading-dot/leading-dot-with-exponent/trailing-dot (with exponent); '
-                    'compared with an independent reference interpreter of the SVG path grammar. distinct = distinct (number class, spelling, letter set)'}
+                    'relative runs with decimal arguments that return to the subpath start up to round-off (also with a non-dyadic current_pos, and 1e16-sized starts) then z; compared with an independent reference interpreter of the SVG path grammar. distinct = distinct (number class, spelling, letter set)'}
 
 
 def replay(spt, f):
